@@ -94,6 +94,7 @@ void WireMonitor::on_send(const Datagram &dg)
 	n_srv_dns++;
 	if (!e.empty()) { v->fail("C10", "C10:server-illformed", "server emitted an ill-formed DNS message: " + e + " bytes=" + sim::hex(d, 160)); return; }
 	if (!m.qr()) return;   // a forwarded query towards the local resolver (C20)
+	if (forwarding && m.q.empty()) return;   // with -b: a reply relayed unchanged from the local resolver, which may have no question section (C20 judges those)
 	if (m.q.size() != 1) { v->fail("C10", "C10:server-noquestion", "server answer without exactly one question"); return; }
 	std::string qn = m.q[0].name.dotted();
 	bool tunnel_name = ref::match_datalen(qn, domain) >= 0;
